@@ -358,6 +358,11 @@ func (s *Scanner) Scan() (Token, error) {
 			literal = option.UnescapeIdentifier(s.literal.String(), ch)
 			token = IDENTIFIER
 			quoted = true
+		} else if unicode.MaxASCII < ch {
+			// A character that belongs to no category is passed to the parser as itself, and the numbers
+			// of the grammar's tokens lie in the private use area of Unicode: only an ASCII character
+			// may stand for itself.
+			token = Uncategorized
 		}
 	}
 
